@@ -2,6 +2,7 @@
 //! Serves C06 C08 C15 C16 and the collection part of C07 (DESIGN.md section 5).
 
 mod configs;
+mod copyvec;
 mod elem;
 mod generate;
 mod interp;
@@ -31,15 +32,15 @@ impl World for CollWorld {
 
     fn execute(trace: &Trace, stats: &mut Stats) -> Vec<Violation> {
         heap::with(0, |h| h.reset(trace.param_or("heap_seed", 1), Policy::from_u64(trace.param_or("policy", 0))));
-        let setting = trace.param_or("setting", 0) % 6;
+        let setting = trace.param_or("setting", 0) % configs::N_SETTINGS;
         let slot = trace.param_or("elem", 0) % 3;
         let elem = configs::ELEMS_OF[setting as usize][slot as usize];
         elem::with(|l| l.reset(if elem == 1 { 250 } else { 100_000 }));
-        let kind = trace.param_or("kind", 2) % 5;
+        let kind = trace.param_or("kind", 2) % 6;
         stats.sig_mix(setting * 64 + elem * 8 + kind);
         stats.bump(&format!("config.setting{setting}"));
         stats.bump(&format!("elem.{}", configs::ELEMS[elem as usize]));
-        stats.bump(&format!("kind.{}", vecapi::KIND_NAMES[kind as usize]));
+        stats.bump(&format!("kind.{}", if kind == 5 { "Copy elements (u32)" } else { vecapi::KIND_NAMES[kind as usize] }));
         let mut ctx = interp::Ctx::new(trace, stats);
         configs::dispatch(setting, slot, &mut ctx);
         ctx.viols
